@@ -31,7 +31,9 @@ def record(rep, tag, rule, site, r, what):
                 # symbols introduced by a summary (v<n>: the value a proved callee returns) are not inputs
                 import re as _re
                 wtxt = ' witness: ' + ', '.join(['%s=0x%016x' % (n, (d.get('h', 0) << 32) + d.get('l', 0)) for n, d in sorted(vals.items())
-                                                 if not _re.match(r'^[fv]\d+$', n)] + ['%s=0x%x' % kv for kv in sorted(single.items())])
+                                                 if not _re.match(r'^[fkv]\d+$', n)] + ['%s=0x%x' % kv for kv in sorted(single.items())])
+            if f.get('contract_level') and wtxt:
+                wtxt += ' [with results of the summarised callees chosen inside their contracts]'
             rep.refute(tag, rule, site, '%s: %s%s (%d of %d cells fail)' % (what, f['detail'][:300], wtxt, len(r.failures), r.cells),
                        witness=f['witness'])
         else:
